@@ -24,6 +24,7 @@ use grin_p2p::msg::{
 use grin_p2p::types::{Capabilities, PeerAddr, ReasonForBan};
 use grin_util::secp::pedersen::{Commitment, RangeProof};
 use grin_util::secp::Signature;
+use grin_util::ToHex;
 use rand::rngs::StdRng;
 use rand::{Rng, SeedableRng};
 use std::net::{Ipv4Addr, Ipv6Addr, SocketAddr, SocketAddrV4, SocketAddrV6};
